@@ -173,6 +173,9 @@ def _site(depth=8):
     return hash(tuple(sig))
 
 
+DEFAULT_RESET = [None]      # set by the loader: restore module-level state of the loaded code between paths
+
+
 def explore(fn, max_paths=20000, stats=None, reset=None):
     """Run fn(ctx) once per feasible path (depth-first re-execution).
 
@@ -180,6 +183,7 @@ def explore(fn, max_paths=20000, stats=None, reset=None):
     A path that aborted (flag) is counted as aborted even if fn returned normally.
     """
     stats = stats if stats is not None else Stats()
+    reset = reset if reset is not None else DEFAULT_RESET[0]
     prefix = []
     known = []
     while True:
@@ -497,6 +501,10 @@ class SInt(SNum):
         return self.concretize()
 
     __int__ = __index__
+
+    def __hash__(self):
+        # a symbolic integer used as a dict / set key: its value is pinned on this path (one path per value)
+        return hash(self.concretize())
 
     def __float__(self):
         return float(self.concretize())
